@@ -453,7 +453,15 @@ func (w *world) key() string {
 	if len(w.authed()) == 0 && !w.clients["V"].opened && !w.clients["U"].opened {
 		w.strays = nil // nobody left whom an earlier stranger could have disturbed
 	}
-	return fmt.Sprintf("%v|%v|%v|%v|%v", ret, cs, w.active, w.listeners, w.strays)
+	// the shape of the implementation's own tables rides along (a function of the above as
+	// long as they follow the model: it adds no states then, and keeps apart states in which
+	// they do not - merged, such a state would never be looked at again)
+	nClients := 0
+	w.ts.T.Clients.Range(func(_, _ any) bool { nClients++; return true })
+	w.ts.T.EventsMtx.Lock()
+	nEvents := len(w.ts.T.EventsList)
+	w.ts.T.EventsMtx.Unlock()
+	return fmt.Sprintf("%v|%v|%v|%v|%v|impl:%d,%d", ret, cs, w.active, w.listeners, w.strays, nClients, nEvents-len(w.retained))
 }
 
 // runHistory replays hist under the scheduler with the default schedule and checks the
